@@ -114,6 +114,44 @@ func fnPkg(fn *ssa.Function) *types.Package {
 func (w *World) AllFuncs() map[*ssa.Function]bool {
 	if w.all == nil {
 		w.all = ssautil.AllFunctions(w.Prog)
+		// AllFunctions only sees methods through method sets of types that are used somewhere; the bodies of
+		// methods of GENERIC types (Workflow[I,O], Graph[I,O], Chain[I,O] …) are reachable from it only if some
+		// package code happens to instantiate them. Add every declared function and method of the module's
+		// packages at its origin, with all nested literals.
+		var add func(f *ssa.Function)
+		add = func(f *ssa.Function) {
+			if f == nil || w.all[f] {
+				return
+			}
+			w.all[f] = true
+			for _, a := range f.AnonFuncs {
+				add(a)
+			}
+		}
+		for _, pk := range w.Pkgs {
+			if pk.Types == nil {
+				continue
+			}
+			scope := pk.Types.Scope()
+			for _, name := range scope.Names() {
+				switch o := scope.Lookup(name).(type) {
+				case *types.Func:
+					add(w.Prog.FuncValue(o))
+				case *types.TypeName:
+					if n, ok := o.Type().(*types.Named); ok {
+						for i := 0; i < n.NumMethods(); i++ {
+							add(w.Prog.FuncValue(n.Method(i)))
+						}
+					}
+				}
+			}
+		}
+		// literals of functions already present
+		for f := range w.all {
+			for _, a := range f.AnonFuncs {
+				add(a)
+			}
+		}
 	}
 	return w.all
 }
